@@ -41,6 +41,8 @@ type entry struct {
 	Nxt    int    `json:"nxt"`
 	N      int    `json:"n"`
 	V      int64  `json:"v"`
+	Wake   int    `json:"wake"` // SubSend/SubFail: the submitter that was waiting for the token and now gets it
+	Wseq   int    `json:"wseq"` // ... and the sequence number it must be given
 	Forced *bool  `json:"forced"`
 }
 
@@ -552,6 +554,25 @@ func (r *run) steps(cleanup func() string) (out []finding) {
 				if int(a.seq) != e.Seq {
 					return bad(i, &e, "SubAlloc:seq", "block %d got sequence number %d, specification says %d", e.B, a.seq, e.Seq)
 				}
+			case "SubGo":
+				if rel(at("sub.begin", "", e.B)) == nil {
+					return bad(i, &e, "SubGo:held", "no goroutine held at sub.begin for block %d", e.B)
+				}
+				// the submitter now blocks in its select on the submit token: nothing may arrive
+				c.settle(15 * time.Millisecond)
+				for _, a := range c.pend {
+					if a.blk == e.B && (a.point == "sub.send" || a.point == "ret.sub") {
+						return bad(i, &e, "SubGo:early", "Submit(%d) went past the submit token although another submitter holds it: %v", e.B, a)
+					}
+				}
+			case "SubWaitFail":
+				if e.Out == "expired" {
+					r.cancels[e.B]()
+				}
+				a := r.expect(at("ret.sub", "", e.B))
+				if a == nil || errKind(a.err) != e.Out {
+					return bad(i, &e, "SubWaitFail:ret", "Submit(%d) waiting for the submit token: got %v, specification says outcome %s", e.B, a, e.Out)
+				}
 			case "SubAllocFail", "SubFail":
 				if e.Out == "expired" {
 					r.cancels[e.B]()
@@ -567,6 +588,15 @@ func (r *run) steps(cleanup func() string) (out []finding) {
 				if a == nil || errKind(a.err) != e.Out {
 					return bad(i, &e, e.A+":ret", "Submit(%d): got %v, specification says outcome %s", e.B, a, e.Out)
 				}
+				if e.Wake != 0 {
+					w := expectHold(at("sub.send", "", e.Wake))
+					if w == nil {
+						return bad(i, &e, e.A+":wake", "Submit(%d) was waiting for the submit token and did not get it", e.Wake)
+					}
+					if int(w.seq) != e.Wseq {
+						return bad(i, &e, "SubAlloc:seq", "block %d got sequence number %d, specification says %d", e.Wake, w.seq, e.Wseq)
+					}
+				}
 			case "SubSend":
 				if rel(at("sub.send", "", e.B)) == nil {
 					return bad(i, &e, "SubSend:held", "no goroutine held at sub.send for block %d", e.B)
@@ -574,6 +604,15 @@ func (r *run) steps(cleanup func() string) (out []finding) {
 				a := r.expect(at("ret.sub", "", e.B))
 				if a == nil || a.err != nil {
 					return bad(i, &e, "SubSend:ret", "Submit(%d): got %v, specification says it returns nil", e.B, a)
+				}
+				if e.Wake != 0 {
+					w := expectHold(at("sub.send", "", e.Wake))
+					if w == nil {
+						return bad(i, &e, "SubSend:wake", "Submit(%d) was waiting for the submit token and did not get it", e.Wake)
+					}
+					if int(w.seq) != e.Wseq {
+						return bad(i, &e, "SubAlloc:seq", "block %d got sequence number %d, specification says %d", e.Wake, w.seq, e.Wseq)
+					}
 				}
 			case "WTake":
 				st := stageName(e.S)
